@@ -78,6 +78,7 @@ def run(an: Analysis, rep):
     rep.run(r033_injective, an, rep, ci)
     rep.run(c08.r084, an, rep, rule="R03.4", nan_sign_matters=True)
     rep.run(r035, an, rep)
+    rep.run(r03w, an, rep)
     rep.run(r036, an, rep)
     rep.run(r037, an, rep)
     rep.run(r038, an, rep)
@@ -112,6 +113,8 @@ ENCODER_REJECTIONS = {
         (1, "two different entries claim one table position: the colliding overrides the property wants rejected (R03.2 / R03.3 decide the test)"),
     ("code_data._blocks::FromArgs.to_tuple", "ValueError"):
         (1, "the overrides leave a gap in the table: the inconsistent overrides the property wants rejected (R03.1 decides the test over index-map models)"),
+    ("code_data._blocks::from_arg", "ValueError"):
+        (1, "a str constant pinned at index 0 of a function whose data says docstring=None: the override contradicts the docstring field (R03.D decides the test)"),
     ("code_data._code_data::from_code_data", "AssertionError"):
         (1, "co_varnames does not start with the parameter names: cannot happen when the variable table is seeded in layout order (C04's R04.4, shared as R03.A)"),
     ("code_data._code_data::from_code_data", "NotImplementedError"):
@@ -347,6 +350,16 @@ def find_size_fn(an: Analysis) -> FunctionInfo:
                 r = an.prog.resolve_global(g.module, n.values[1].func.id, g)
                 if r and r[0] == "func" and len(r[1].params) == 1:
                     cands[r[1].qual] = r[1]
+    if not cands:
+        # ... or of a helper that combines the recorded width with f(operand) some other way (`max(recorded or 1, f(operand))`)
+        for g in an.closure("to_code"):
+            if not any(isinstance(x, ast.Attribute) and "override" in x.attr and "arg" in x.attr for x in ast.walk(g.node)) or len(g.params) != 2:
+                continue
+            for c in ast.walk(g.node):
+                if isinstance(c, ast.Call) and isinstance(c.func, ast.Name) and len(c.args) == 1 and isinstance(c.args[0], ast.Name) and c.args[0].id == g.params[1]:
+                    r = an.prog.resolve_global(g.module, c.func.id, g)
+                    if r and r[0] == "func" and len(r[1].params) == 1:
+                        cands[r[1].qual] = r[1]
     if len(cands) == 1:
         return next(iter(cands.values()))
     best = None
@@ -463,6 +476,73 @@ def r035(an, rep):
     rep.add("R03.5", f"{pf.qual}::two bytes per code unit", ok_step, loc(pf.module, rng or pf.node),
             "the parser visits offsets 0, 2, 4, ..." if ok_step else "the parser does not step through the bytecode two bytes at a time")
     # (that the package's own parser reassembles prefixes the same way is R02.8, shared below as R03.X)
+
+
+def r03w(an, rep, rule="R03.5"):
+    """Wherever the encoder decides how many code units an instruction gets, a recorded width is honoured only as long as the operand fits: a
+    width override that is too small for the operand the layout arrived at (hand-edited data: 70000 instructions inserted into a loop whose jump was
+    decoded with two units) must not truncate the operand - the emitted width is max(recorded, minimal)."""
+    from sa.feval import callable_for_feval
+    sf = find_size_fn(an)
+    size = callable_for_feval(lambda v: eval_size(an, sf, v))
+
+    def minimal(a):
+        return 1 if a <= 0xFF else 2 if a <= 0xFFFF else 3 if a <= 0xFFFFFF else 4
+    sites = []
+    for g in an.closure("to_code"):
+        for n in ast.walk(g.node):
+            if isinstance(n, ast.Assign) and len(n.targets) == 1 and isinstance(n.targets[0], ast.Name) \
+                    and any(isinstance(x, ast.Attribute) and x.attr == "_n_args_override" for x in ast.walk(n.value)) \
+                    and any(isinstance(x, ast.Call) for x in ast.walk(n.value)):
+                sites.append((g, n))
+    # ... or the decision sits in a helper (instruction, operand) -> width that the encoder calls
+    helpers = []
+    for g in an.closure("to_code"):
+        if isinstance(g.node, ast.FunctionDef) and len(g.params) == 2:
+            rets = [r for r in ast.walk(g.node) if isinstance(r, ast.Return) and r.value is not None]
+            rv = inline_locals(g.node, rets[0].value) if len(rets) == 1 else None
+            if rv is not None and any(isinstance(x, ast.Attribute) and x.attr == "_n_args_override" for x in ast.walk(rv)):
+                helpers.append((g, ast.Assign(targets=[ast.Name(id=g.name + "(...)", ctx=ast.Store())], value=rv, lineno=rets[0].lineno, col_offset=0)))
+    if not sites and not helpers:
+        raise AnalysisError("the encoder's width decisions (expressions over _n_args_override and the size function) were not found")
+    # every place that reads the recorded width directly is decided; with a helper, the encoder's own reads must go through it
+    sites = sites + helpers
+    for g, n in sites:
+        e = n.value
+        # the one free name besides the instruction and the size function is the operand value
+        inst = next((x.value.id for x in ast.walk(e) if isinstance(x, ast.Attribute) and x.attr == "_n_args_override" and isinstance(x.value, ast.Name)), None)
+        callee = {c.func.id for c in ast.walk(e) if isinstance(c, ast.Call) and isinstance(c.func, ast.Name)}
+        free = sorted({x.id for x in ast.walk(e) if isinstance(x, ast.Name)} - {inst} - callee - {"max", "min"})
+        if inst is None or len(free) != 1:
+            raise AnalysisError(f"{g.qual}: width expression `{norm_src(e)}` not recognised")
+        bad = []
+        for ov in (None, 1, 2, 3, 4, 6):
+            for a in (0, 300, 70000, 0x1000000):
+                env = {inst: {"_n_args_override": ov}, free[0]: a, "max": max, "min": min}
+                for c in callee:
+                    r = an.prog.resolve_global(g.module, c, g)
+                    if r and r[0] == "func":
+                        env[c] = callable_for_feval(lambda v, _f=r[1]: PureEvalCall(an, _f, v)) if r[1] is not sf else size
+                try:
+                    got = feval(e, env)
+                except Exception as ex:
+                    raise AnalysisError(f"{g.qual}: width expression `{norm_src(e)}` not evaluable ({ex})")
+                want = max(ov or 1, minimal(a))
+                if got != want:
+                    bad.append(f"recorded width {ov}, operand {a} (needs {minimal(a)}): {got} code unit(s), expected {want}")
+        rep.add(rule, f"{g.qual}::width = max(recorded, minimal) at `{n.targets[0].id} = ...` (#{sites.index((g, n)) + 1})", not bad, loc(g.module, n) if hasattr(n, "end_lineno") else loc(g.module, g.node),
+                f"`{norm_src(e)}` honours a recorded width and never goes below what the operand needs" if not bad else
+                f"`{norm_src(e)}`: {bad[0]} - a jump decoded with two code units whose loop body grew by hand (70000 inserted instructions) keeps two units and its operand is cut to "
+                f"16 bits: the jump lands somewhere else, silently")
+
+
+def PureEvalCall(an, f, v):
+    from sa.feval import PureEval
+
+    def resolve(name):
+        r = an.prog.resolve_global(f.module, name, f)
+        return r[1].node if r and r[0] == "func" else None
+    return PureEval(resolve).call(f.node, v)
 
 
 # ----------------------------------------------------------------------------- R03.6
@@ -593,69 +673,75 @@ def r037(an, rep):
     if ok:
         gs = guards_of(g.module, g, raises[0])
         tests = [inline_locals(g.node, t) for t, pos in gs if pos]
-        cmpsize = any(isinstance(c, ast.Compare) and isinstance(c.ops[0], ast.NotEq) and any(isinstance(x, ast.Call) and isinstance(x.func, ast.Name) and x.func.id == sf.name for x in ast.walk(c))
-                      for t in tests for c in ast.walk(t))
-        ok = cmpsize
-        why = f"`{flag} = True` exactly when the size of the new jump operand differs from the size used for the offsets" if ok else \
-            f"`{flag} = True` is not guarded by a comparison of the old and the new operand size: the loop may stop before sizes are stable (jumps land mid-instruction) or never stop"
-        if ok:
-            # exactness: the flag must be raised for EVERY jump whose size changed (unless its size is pinned by an override), whatever its kind or direction.
-            # Evaluate the guard over the finite domain {override set?} x {old size} x {new operand} x {every other name / attribute in it: two values each}.
-            import itertools
-            from sa.feval import callable_for_feval
-            # the innermost guard only (the enclosing `isinstance(arg, Jump)` selects the instructions the loop is about)
-            guard = inline_locals(g.node, _conj([x for x in gs if not any(isinstance(c, ast.Call) and isinstance(c.func, ast.Name) and c.func.id == "isinstance" for c in ast.walk(x[0]))]), keep_calls=True)
-            class _Sub(ast.NodeTransformer):  # a subscript expression is an opaque quantity of its own
-                def __init__(self):
-                    self.n = {}
+        import itertools
+        from sa.feval import callable_for_feval
+        size = callable_for_feval(lambda v: eval_size(an, sf, v))
+        # callables the guard may use: the size function and a width helper (instruction, operand) -> code units
+        callenv = {sf.name: size, "max": max, "min": min}
+        for h in an.closure("to_code"):
+            if isinstance(h.node, ast.FunctionDef) and len(h.params) == 2 and h is not sf:
+                hr = [r for r in ast.walk(h.node) if isinstance(r, ast.Return) and r.value is not None]
+                hv = inline_locals(h.node, hr[0].value) if len(hr) == 1 else None
+                if hv is not None and any(isinstance(x, ast.Attribute) and x.attr == "_n_args_override" for x in ast.walk(hv)):
+                    callenv[h.name] = callable_for_feval(lambda inst, a, _h=h, _e=hv: feval(_e, {_h.params[0]: inst, _h.params[1]: a, sf.name: size, "max": max, "min": min}))
+        # the innermost guard only (the enclosing `isinstance(arg, Jump)` selects the instructions the loop is about)
+        guard = inline_locals(g.node, _conj([x for x in gs if not any(isinstance(c, ast.Call) and isinstance(c.func, ast.Name) and c.func.id == "isinstance" for c in ast.walk(x[0]))]), keep_calls=True)
 
-                def visit_Subscript(self, n):
-                    key = ast.dump(n)
-                    self.n.setdefault(key, f"subscript_{len(self.n)}")
-                    return ast.copy_location(ast.Name(self.n[key], ast.Load()), n)
-            guard = ast.fix_missing_locations(_Sub().visit(guard))
-            size = callable_for_feval(lambda v: eval_size(an, sf, v))
-            leaves = sorted({norm_src(a) for a in ast.walk(guard) if isinstance(a, ast.Attribute)} |
-                            {n.id for n in ast.walk(guard) if isinstance(n, ast.Name) and n.id != sf.name})
-            leaves = [l for l in leaves if not any(m != l and m.startswith(l + ".") for m in leaves)]
-            # which leaf is the override, which the old size, which the new operand?  by role: the override is the attribute ending in the
-            # Instruction field typed Optional[int]; the argument of the size function is the new operand; the name compared with it is the old size
-            newop = oldsz = ovr = None
-            for c in ast.walk(guard):
-                if isinstance(c, ast.Compare) and isinstance(c.ops[0], ast.NotEq):
-                    for side, other in ((c.left, c.comparators[0]), (c.comparators[0], c.left)):
-                        if isinstance(side, ast.Call) and isinstance(side.func, ast.Name) and side.func.id == sf.name:
-                            newop = norm_src(side.args[0])
-                            oldsz = norm_src(other)
-            ins = an.prog.cls("code_data::Instruction")
-            ovf = [f.name for f in ins.fields if f.private and "int" in ast.dump(f.annotation)]
-            for l in leaves:
-                if any(l.endswith("." + f) for f in ovf):
-                    ovr = l
-            if newop in leaves and oldsz in leaves and ovr:
-                others = [l for l in leaves if l not in (newop, oldsz, ovr)]
-                bad = []
-                for ov, old, new in itertools.product((None, 2), (1, 2), (5, 300)):
+        class _Sub(ast.NodeTransformer):  # a subscript expression is an opaque quantity of its own
+            def __init__(self):
+                self.n = {}
+
+            def visit_Subscript(self, n):
+                key = ast.dump(n)
+                self.n.setdefault(key, f"subscript_{len(self.n)}")
+                return ast.copy_location(ast.Name(self.n[key], ast.Load()), n)
+        guard = ast.fix_missing_locations(_Sub().visit(guard))
+        ins = an.prog.cls("code_data::Instruction")
+        names = sorted({n.id for n in ast.walk(guard) if isinstance(n, ast.Name)} - set(callenv))
+        it_g, _ = an.interp("to_code")
+        inst_names = [n for n in names if any(isinstance(a, ast.Attribute) and isinstance(a.value, ast.Name) and a.value.id == n for a in ast.walk(guard))
+                      or any(isinstance(c, ast.Call) and isinstance(c.func, ast.Name) and c.func.id in callenv and c.args and isinstance(c.args[0], ast.Name) and c.args[0].id == n
+                             and c.func.id not in (sf.name, "max", "min") for c in ast.walk(guard))]
+        # the new operand: argument of the size function / second argument of the width helper; the old size: the name compared with that call
+        newop = oldsz = None
+        for c in ast.walk(guard):
+            if isinstance(c, ast.Compare) and len(c.ops) == 1 and isinstance(c.ops[0], ast.NotEq):
+                for side, other in ((c.left, c.comparators[0]), (c.comparators[0], c.left)):
+                    if isinstance(side, ast.Call) and isinstance(side.func, ast.Name) and side.func.id in callenv and isinstance(other, ast.Name):
+                        a_ = side.args[-1]
+                        if isinstance(a_, ast.Name):
+                            newop, oldsz = a_.id, other.id
+        if newop is None or len(inst_names) != 1:
+            ok = False
+            why = f"`{flag} = True` is not guarded by a comparison of the old and the new operand size: the loop may stop before sizes are stable (jumps land mid-instruction) or never stop"
+        else:
+            others = [n for n in names if n not in (newop, oldsz, inst_names[0])]
+            bad = []
+            for ov, new in itertools.product((None, 2), (5, 300, 70000)):
+                for old in (1, 2, 3):
+                    if old < (ov or 1):
+                        continue  # the size used so far is never below the recorded width
                     for combo in itertools.product((0, 7), repeat=len(others)):
                         for flip in (False, True):
-                            env = {sf.name: size, ovr: ov, oldsz: old, newop: new}
+                            env = dict(callenv)
+                            env.update({inst_names[0]: {"_n_args_override": ov}, oldsz: old, newop: new})
                             for l, v in zip(others, combo):
                                 env[l] = bool(v) if flip else v
                             try:
                                 got = bool(feval(guard, env))
                             except (FevalError, TypeError, KeyError) as ex:
                                 raise AnalysisError(f"{g.qual}: relaxation guard `{norm_src(guard)}` not evaluable: {ex}")
-                            want = (not ov) and old != size(new)
+                            want = old != max(ov or 1, size(new))
                             if got != want:
                                 bad.append((dict(zip(others, combo)), ov, old, new, got))
-                if bad:
-                    ex = bad[0]
-                    ok = False
-                    why = (f"`{flag} = True` is guarded by `{norm_src(guard)}`, which also depends on {others}: with {ex[0]} (override={ex[1]}, old size {ex[2]}, new operand {ex[3]}) "
-                           f"a jump whose size changed does {'not ' if not ex[4] else ''}trigger a new layout pass - offsets computed for the short layout are emitted next to a widened jump, "
-                           f"so other jumps land in the middle of an instruction (visible once normalize() has stripped the width overrides)")
-                else:
-                    why += f" (guard `{norm_src(guard)}` evaluated on every combination of override / sizes" + (f" / {others}" if others else "") + ")"
+            ok = not bad
+            if bad:
+                ex = bad[0]
+                why = (f"`{flag} = True` is guarded by `{norm_src(guard)}`" + (f", which also depends on {others}" if others else "") + f": with recorded width {ex[1]}, size so far {ex[2]} and new operand "
+                       f"{ex[3]}{(' and ' + str(ex[0])) if ex[0] else ''} a jump whose size has to change does {'not ' if not ex[4] else ''}trigger a new layout pass - offsets computed for the old "
+                       f"layout are emitted next to a jump of another width, so jumps land in the middle of an instruction or the operand is cut off")
+            else:
+                why = f"`{flag} = True` exactly when the width the new jump operand needs (at least the recorded one) differs from the width used for the offsets (guard `{norm_src(guard)}` on every combination)"
     rep.add("R03.7", f"{g.qual}::changed flag", ok, loc(g.module, raises[0] if raises else wl), why)
     # offsets recomputed before operands within each iteration: two top-level for loops in the while body, the first assigns block offsets
     fors = [st for st in wl.body if isinstance(st, ast.For)]
@@ -671,10 +757,15 @@ def r037(an, rep):
     rep.add("R03.7", f"{g.qual}::block offsets are recomputed before jump operands", ok, loc(g.module, wl),
             "each iteration first recomputes every block's offset, then the jump operands from those offsets" if ok else
             "jump operands are not computed from block offsets recomputed in the same iteration")
-    # sibling agreement: every size computation in the encoder is the same expression
+    # sibling agreement: every width computation in the encoder is the same expression (inline `recorded or size(operand)` or a call of the width helper)
+    helpers = set()
+    for h in an.closure("to_code"):
+        if isinstance(h.node, ast.FunctionDef) and len(h.params) == 2 and any(isinstance(x, ast.Attribute) and x.attr == "_n_args_override" for x in ast.walk(h.node)) and h is not g:
+            helpers.add(h.name)
     sizes = []
     for n in ast.walk(g.node):
-        if isinstance(n, ast.Assign) and isinstance(n.value, ast.BoolOp) and any(isinstance(x, ast.Call) and isinstance(x.func, ast.Name) and x.func.id == sf.name for x in ast.walk(n.value)):
+        if isinstance(n, ast.Assign) and ((isinstance(n.value, ast.BoolOp) and any(isinstance(x, ast.Call) and isinstance(x.func, ast.Name) and x.func.id == sf.name for x in ast.walk(n.value)))
+                                          or (isinstance(n.value, ast.Call) and isinstance(n.value.func, ast.Name) and n.value.func.id in helpers)):
             sizes.append(n)
     same = len({ast.dump(n.value) for n in sizes}) == 1 and len(sizes) >= 3
     rep.add("R03.7", f"{g.qual}::offsets and emission use the same instruction size", same, loc(g.module, sizes[0]) if sizes else loc(g.module, g.node),
